@@ -382,6 +382,84 @@ mutate "(b4) harmless: HashBidiMap.Remove with an early return" $HB \
 	m.forwardMap.Remove(key)
 	m.inverseMap.Remove(value)'
 
+DLE=lists/doublylinkedlist/enumerable.go
+SLE=lists/singlylinkedlist/enumerable.go
+mutate "(n1) DoublyLinkedList.Map: chunked Add for > 1024 elements" $DLE \
+'	newList := &List[T]{}
+	iterator := list.Iterator()
+	for iterator.Next() {
+		newList.Add(f(iterator.Index(), iterator.Value()))
+	}
+	return newList' '	newList := &List[T]{}
+	if list.Size() > 1024 {
+		chunk := make([]T, 0, 256)
+		iterator := list.Iterator()
+		for iterator.Next() {
+			chunk = append(chunk, f(iterator.Index(), iterator.Value()))
+			if len(chunk) == 256 {
+				newList.Add(chunk...)
+				chunk = chunk[:0]
+			}
+		}
+		return newList
+	}
+	iterator := list.Iterator()
+	for iterator.Next() {
+		newList.Add(f(iterator.Index(), iterator.Value()))
+	}
+	return newList'
+
+mutate "(n2) SinglyLinkedList.Select links cells by hand with a stale last" $SLE \
+'		if f(iterator.Index(), iterator.Value()) {
+			newList.Add(iterator.Value())
+		}' '		if f(iterator.Index(), iterator.Value()) {
+			cell := &element[T]{value: iterator.Value()}
+			if newList.first == nil {
+				newList.first = cell
+			} else {
+				newList.last.next = cell
+			}
+			newList.size++
+		}'
+
+mutate "(n3) TreeSet.Select builds the result with the default comparator" sets/treeset/enumerable.go \
+'func (set *Set[T]) Select(f func(index int, value T) bool) *Set[T] {
+	newSet := &Set[T]{tree: rbt.NewWith[T, struct{}](set.tree.Comparator)}' 'func (set *Set[T]) Select(f func(index int, value T) bool) *Set[T] {
+	newSet := &Set[T]{tree: rbt.New[T, struct{}]()}'
+
+mutate "(n4) LinkedHashMap.Select keeps the rejected entries" maps/linkedhashmap/enumerable.go \
+'		if f(iterator.Key(), iterator.Value()) {
+			newMap.Put(iterator.Key(), iterator.Value())' '		if !f(iterator.Key(), iterator.Value()) {
+			newMap.Put(iterator.Key(), iterator.Value())'
+
+mutate "(n5) ArrayList.Any returns on the first miss" lists/arraylist/enumerable.go \
+'		if f(iterator.Index(), iterator.Value()) {
+			return true
+		}
+	}
+	return false' '		if !f(iterator.Index(), iterator.Value()) {
+			return false
+		}
+	}
+	return true'
+
+mutate "(n6) harmless: TreeMap.Find with renamed locals" maps/treemap/enumerable.go \
+'func (m *Map[K, V]) Find(f func(key K, value V) bool) (k K, v V) {
+	iterator := m.Iterator()
+	for iterator.Next() {
+		if f(iterator.Key(), iterator.Value()) {
+			return iterator.Key(), iterator.Value()
+		}
+	}
+	return k, v' 'func (m *Map[K, V]) Find(f func(key K, value V) bool) (foundKey K, foundValue V) {
+	it := m.Iterator()
+	for it.Next() {
+		if f(it.Key(), it.Value()) {
+			return it.Key(), it.Value()
+		}
+	}
+	return foundKey, foundValue'
+
 mutate "(h) Dequeue forgets to wrap start" $CB \
 '	if queue.start >= queue.maxSize {
 		queue.start = 0
